@@ -629,6 +629,57 @@ def check_roots(rep, ws):
                   tied = any(cn.op == 'fcmp' and cn.attr == 'oeq' and v and any(a_.op == 'const' and T.const_value(a_) == 0 for a_ in cn.args) for cn, v in asg.items())
                   z = tied and P.pdivexact(ctx2.reduce(val[0]), Dp) is not None
               ok2 = z if ok2 is None else (ok2 and z)
+        # numerical form of the two-root branch (D > 0, a != 0): sign-domain abstract interpretation of the root
+        # expressions on the cells sign(a) x sign(b); sqrt(D) is a positive atom (its own conditioning is the
+        # "well separated" premise).  No addition may combine operands of opposite or unknown sign: that is the
+        # cancellation  -b +- sqrt(D)  which the q form avoids (x0 = q/a, x1 = c/q, q = -(b + sgn(b) sqrt(D))/2)
+        cD = None
+        for cn in PC.all_conds(x0) if hasattr(PC, 'all_conds') else P.all_conds(x0):
+            if cn.op == 'fcmp' and cn.attr == 'olt' and cn.args[0] is zero and cn.args[1].op == 'fadd': cD = cn
+        cancel = None
+        if cD is not None:
+            r0 = T.resolve(x0, {ca: False, cD: True}); r1 = T.resolve(x1, {ca: False, cD: True})
+            def sgn(x, env, sites):
+                if x.op == 'const':
+                    v = T.const_value(x); return '0' if v == 0 else ('+' if v > 0 else '-')
+                if x is a: return env['a']
+                if x is b: return env['b']
+                if x.op == 'call' and 'sqrt' in str(x.attr): return '+'
+                if x.op == 'fneg':
+                    r = sgn(x.args[0], env, sites); return {'+': '-', '-': '+'}.get(r, r)
+                if x.op in ('fmul', 'fdiv'):
+                    p_, q_ = sgn(x.args[0], env, sites), sgn(x.args[1], env, sites)
+                    if p_ == '0': return '0'
+                    if q_ == '0': return '0' if x.op == 'fmul' else '?'
+                    if '?' in (p_, q_): return '?'
+                    return '+' if p_ == q_ else '-'
+                if x.op == 'ite':
+                    cnd = x.args[0]
+                    if cnd.op == 'fcmp' and cnd.attr in ('olt', 'ole'):
+                        l_, r_ = sgn(cnd.args[0], env, []), sgn(cnd.args[1], env, [])
+                        val = None
+                        if (l_, r_) in (('0', '+'), ('-', '+'), ('-', '0')): val = True
+                        if (l_, r_) in (('+', '0'), ('+', '-'), ('0', '-')): val = False
+                        if (l_, r_) == ('0', '0'): val = cnd.attr == 'ole'
+                        if val is not None: return sgn(x.args[1] if val else x.args[2], env, sites)
+                    p_, q_ = sgn(x.args[1], env, sites), sgn(x.args[2], env, sites)
+                    return p_ if p_ == q_ else '?'
+                if x.op == 'fadd':
+                    p_, q_ = sgn(x.args[0], env, sites), sgn(x.args[1], env, sites)
+                    if p_ == '0': return q_
+                    if q_ == '0': return p_
+                    if p_ == q_ and p_ != '?': return p_
+                    sites.append((T.show(x, 3)[:120], p_, q_)); return '?'
+                return '?'
+            for sa in '+-':
+                for sb in '+-0':
+                    sites = []
+                    sgn(r0, {'a': sa, 'b': sb}, sites); sgn(r1, {'a': sa, 'b': sb}, sites)
+                    if sites and cancel is None:
+                        cancel = 'for a %s 0, b %s 0 a root is computed by the sum %s of operands with signs (%s, %s): cancellation when the roots differ in magnitude' % ('>' if sa == '+' else '<', {'+': '>', '-': '<', '0': '='}[sb], sites[0][0], sites[0][1], sites[0][2])
+        else:
+            cancel = 'branch D > 0 not recognised'
+        rep.ob('solveQuadratic#form', 'R17.roots', VIOLATED if cancel else HOLDS, cancel or 'two-root branch: every addition in the root expressions combines operands of equal sign on all 6 sign cells of (a, b) (no cancellation outside the discriminant)', where)
         rep.ob('solveQuadratic', 'R17.roots', HOLDS if (okd and ok2) else VIOLATED, 'a = 0 delegates to solveLinear (x = -c/b); every computed root satisfies a x^2 + b x + c = 0 modulo sqrt(D)^2 = D' if (okd and ok2) else 'degenerate path %s, root identity %s' % (okd, ok2), where)
     except (vg.Unsupported, P.NotPoly, PC.Undecided) as e:
         rep.ob('solveQuadratic', 'R17.roots', UNDECIDED, str(e), where)
